@@ -621,11 +621,10 @@ def run_glue(R: Run):
                 box["rec"] = rec
                 return out
 
-            # `nodata=None` spelled out on the supplied-overviews path: write_cog_layers lets it override the array's attrs
-            # (known finding, repaired on branch fix2-C15); the point is judged by the oracle below only, so that the trace
-            # correspondence holds on the tree as it is and on the repaired tree
+            # `nodata=None` spelled out on the supplied-overviews path (finding F65, repaired by 4344a79: "not given", as on the
+            # direct path) is part of the correspondence like every other point; the oracle below keeps its own key for it
             none_on_layers = "nodata" in kw and kw["nodata"] is None and (which == "write_cog_layers" or overviews is not None)
-            out = f() if none_on_layers else R.corr(line, f, sig=sig)
+            out = R.corr(line, f, sig=sig + ("|kwNone" if none_on_layers else ""))
             case = {"fn": which, "line": line}
             if "rec" in box and "ERR:" not in out and layers and all(l.odc.geobox is not None for l in layers):
                 exp = [(band_first(np.asarray(l.data), l.odc.geobox.shape), l.odc.geobox.transform, str(l.odc.geobox.crs)) for l in layers]
